@@ -33,6 +33,11 @@ LIB = """{
   f(x, y=10): x + y + self.a,
   nested: { p: { q: $.deep + 1 } },
   str: std.join(',', std.map(std.toString, self.big)),
+  base: { assert self.n > 0 : 'n must be positive', n: 1, m: self.n + 1 },
+  patch: { n: -1 },
+  goodpatch: { n: 5 },
+  mixin: { assert std.length(self.tags) < 3 : 'too many tags', tags+: ['x'] },
+  tagged: { tags: ['a'] },
 }"""
 
 SOURCES = [
@@ -69,17 +74,44 @@ SOURCES = [
     "std.extVar('lib').rec(60)",
     "{ a: std.extVar('lib').deep, b: std.extVar('lib').fail }",
     "{ a: std.extVar('lib').deep, b:: std.extVar('lib').fail }",
+    "std.extVar('lib').base",
+    "std.extVar('lib').base.m",
+    "std.extVar('lib').patch",
+    "std.extVar('lib').patch.n",
+    "std.extVar('lib').base + std.extVar('lib').patch",
+    "(std.extVar('lib').base + std.extVar('lib').patch).m",
+    "std.extVar('lib').base + std.extVar('lib').goodpatch",
+    "std.extVar('lib').goodpatch",
+    "local l = import 'lib.libsonnet'; l.base + l.patch",
+    "local l = import 'lib.libsonnet'; [l.base.n, l.patch.n]",
+    "local l = import 'lib.libsonnet'; l.tagged + l.mixin",
+    "local l = import 'lib.libsonnet'; l.tagged + l.mixin + l.mixin + l.mixin",
+    "local l = import 'lib.libsonnet'; [l.tagged, l.mixin.tags]",
+    "local l = std.extVar('lib'); std.length((l.tagged + l.mixin).tags)",
 ]
 FUNCS = {20, 21, 22, 23}
 STACKS = [5, 20, 45, 60, 130, 500]
 OPS = ["load", "load", "eval", "eval", "eval_again", "call", "manifest", "manifest", "gc", "stack", "drop"]
 
 
+# related sources are used together: a history draws from one or two themes, so that requests really share thunks
+THEMES = [
+    [33, 34, 35, 36, 37, 38, 39, 40, 41, 42],          # base / patch / base + patch (assertions of combined objects)
+    [43, 44, 45, 46],                                   # tagged + mixin
+    [1, 5, 6, 31, 32, 0, 10],                           # explicit error inside the shared library
+    [2, 3, 4, 13, 14, 23, 30, 11],                      # deep recursion and stack limits
+    [7, 8, 9, 15, 19, 22],                              # object with a failing assertion
+    [20, 21, 22, 23, 27, 28, 29],                       # functions and calls
+    [16, 17, 18, 24, 25, 26, 12],                       # imports, fresh field names, type errors
+    list(range(47)),
+]
+
+
 @st.composite
 def history_case(draw):
     n = draw(st.integers(2, 14))
     ops = [[draw(st.sampled_from(OPS)), draw(st.integers(0, 100)), draw(st.integers(0, 100)), draw(st.integers(0, 100))] for _ in range(n)]
-    return {"ops": ops}
+    return {"ops": ops, "themes": draw(st.lists(st.integers(0, len(THEMES) - 1), min_size=1, max_size=2))}
 
 
 def norm_json(x):
@@ -121,7 +153,8 @@ def check_history(case):
     last_gc = -1
     for op, a, b, c in case["ops"]:
         if op == "load":
-            i = a % len(SOURCES)
+            pool = [x for t in case.get("themes", [len(THEMES) - 1]) for x in THEMES[t] if x < len(SOURCES)]
+            i = pool[a % len(pool)]
             steps.append(["load", i])
             thunks.append(i)
             chains.append(None)
@@ -203,6 +236,9 @@ def check_history(case):
         if exp[0] == "err" and exp[1] == "StackOverflow" and not (got[0] == "err" and got[1] == "StackOverflow"):
             # values memoised by earlier requests need fewer frames than a fresh state: not a difference in meaning
             continue
+        if got[0] == "err" and exp[0] == "err" and got[1] == exp[1] == "StackOverflow":
+            # where the limit is hit depends on what is already memoised: only the kind of outcome is comparable
+            continue
         if got != exp:
             kinds = f"{got[0]}:{got[1] if got[0] == 'err' else ''}->{exp[0]}:{exp[1] if exp[0] == 'err' else ''}"
             sig = "history-dependent"
@@ -222,6 +258,110 @@ def check_history(case):
     return {"nontrivial": nt, "labels": ["with-failure" if had_failure else "all-ok"], "sample": steps[:10]}
 
 
+# ---------------------------------------------------------------------------------------------
+# histories on rsjsonnet_front::Session over real files (import resolution state is per session)
+
+FS_FILES = {
+    "lib/util.libsonnet": "{who: 'library util', v: 210, this: std.thisFile}",
+    "lib/only_lib.libsonnet": "{who: 'only in lib', u: (import 'util.libsonnet').who}",
+    "lib2/util.libsonnet": "{who: 'second library util', v: 3}",
+    "app1/util.libsonnet": "{who: 'app1 local util', v: 42}",
+    "app1/main.jsonnet": "{who: (import 'util.libsonnet').who, v: (import 'util.libsonnet').v}",
+    "app2/main.jsonnet": "{who: (import 'util.libsonnet').who, v: (import 'util.libsonnet').v}",
+    "app2/via_lib.jsonnet": "(import 'only_lib.libsonnet')",
+    "app1/via_lib.jsonnet": "(import 'only_lib.libsonnet') + {mine: (import 'util.libsonnet').who}",
+    "app3/util.libsonnet": "{who: 'app3 local util', v: error 'app3 util is broken'}",
+    "app3/main.jsonnet": "{who: (import 'util.libsonnet').who, v: (import 'util.libsonnet').v}",
+    "app3/who_only.jsonnet": "(import 'util.libsonnet').who",
+    "app2/missing.jsonnet": "import 'nowhere.libsonnet'",
+    "app2/syntax.jsonnet": "{a: ",
+    "app1/str.jsonnet": "importstr 'util.libsonnet'",
+    "app2/str.jsonnet": "importstr 'util.libsonnet'",
+    "app1/deep.jsonnet": "local f(n) = if n == 0 then (import 'util.libsonnet').v else f(n - 1); f(80)",
+    "app2/dotted.jsonnet": "(import './../app2/../lib/util.libsonnet').this",
+    "app2/plain_this.jsonnet": "(import 'util.libsonnet').this",
+}
+FS_MAINS = [k for k in sorted(FS_FILES) if k.endswith(".jsonnet")]
+_FS_ROOT = None
+
+
+def fs_root():
+    """The file tree is written once per worker process (same content for every case)."""
+    global _FS_ROOT
+    if _FS_ROOT is None:
+        import atexit
+        import os
+        import shutil
+        import tempfile
+        d = tempfile.mkdtemp(prefix="c11fs-")
+        atexit.register(shutil.rmtree, d, True)
+        for rel, content in FS_FILES.items():
+            os.makedirs(os.path.dirname(os.path.join(d, rel)), exist_ok=True)
+            with open(os.path.join(d, rel), "w") as f:
+                f.write(content)
+        _FS_ROOT = d
+    return _FS_ROOT
+
+
+@st.composite
+def fs_case(draw):
+    n = draw(st.integers(2, 10))
+    ops = [[draw(st.sampled_from(["load", "load", "eval", "eval", "manifest", "gc", "stack"])), draw(st.integers(0, 100)), draw(st.integers(0, 100))] for _ in range(n)]
+    return {"ops": ops, "jpaths": draw(st.sampled_from([["lib"], ["lib", "lib2"], ["lib2", "lib"], []]))}
+
+
+def check_fs_history(case):
+    root = fs_root()
+    steps, chains = [], []
+    thunks, values = [], []
+    stack = 500
+    for op, a, b in case["ops"]:
+        if op == "load":
+            m = FS_MAINS[a % len(FS_MAINS)]
+            steps.append(["load", m])
+            thunks.append(m)
+            chains.append([["stack", stack], ["load", m]])
+        elif op == "eval" and thunks:
+            t = a % len(thunks)
+            steps.append(["eval", t])
+            values.append(t)
+            chains.append([["stack", stack], ["load", thunks[t]], ["eval", 0]])
+        elif op == "manifest" and values:
+            v = a % len(values)
+            steps.append(["manifest", v, bool(b % 2)])
+            chains.append([["stack", stack], ["load", thunks[values[v]]], ["eval", 0], ["manifest", 0, bool(b % 2)]])
+        elif op == "gc":
+            steps.append(["gc"])
+            chains.append(None)
+        elif op == "stack":
+            stack = [30, 60, 200, 500][a % 4]
+            steps.append(["stack", stack])
+            chains.append(None)
+    if not any(chains):
+        return {}
+    cfg = {"root": root, "jpaths": case["jpaths"]}
+    res = util.request({"op": "fsession", "steps": steps, **cfg}, what=f"session history {steps}")["results"]
+    distinct_mains = len({s[1] for s in steps if s[0] == "load"})
+    failed_before = False
+    nt = False
+    for k, (st_, chain) in enumerate(zip(steps, chains)):
+        if chain is None or "skip" in res[k]:
+            continue
+        fresh = util.request({"op": "fsession", "steps": chain, **cfg}, what=f"fresh session {chain}")["results"][-1]
+        if "skip" in fresh:
+            continue
+        if "failed" in fresh and "deep" in str(chain) and "ok" in res[k]:
+            continue  # memoised values need fewer frames
+        if res[k] != fresh:
+            raise Violation("session-history-dependent", f"step {k} {st_} of {steps} with -J {case['jpaths']}: long-lived session {str(res[k])[:300]}, fresh session {str(fresh)[:300]}")
+        if "failed" in res[k]:
+            failed_before = True
+        elif failed_before:
+            nt = True
+    return {"nontrivial": nt or distinct_mains >= 2, "labels": [f"J{len(case['jpaths'])}"], "sample": {"steps": steps[:8], "jpaths": case["jpaths"]}}
+
+
 CHECKS = [
+    Check("session_files_history", check_fs_history, fs_case, quick=600, thorough=6000),
     Check("history_vs_fresh_state", check_history, history_case, quick=400, thorough=5000),
 ]
